@@ -359,7 +359,7 @@ class Ctx:
             self.coverage["samples"].append(x)
 
     def write_replay(self, obj):
-        d = os.path.join(VERIF, "replays", self.prop)
+        d = os.path.join(os.environ.get("VERIF_REPLAY_DIR") or os.path.join(VERIF, "replays"), self.prop)
         os.makedirs(d, exist_ok=True)
         self._replay_n += 1
         path = os.path.join(d, f"{self.tier}-seed{self.seed}-{self._replay_n}.json")
@@ -425,8 +425,9 @@ class Ctx:
             "wall_s": round(time.time() - self.t0, 2),
             "violations": len(self.violations),
         }
-        os.makedirs(os.path.join(VERIF, "evidence"), exist_ok=True)
-        with open(os.path.join(VERIF, "evidence", self.prop + ".json"), "w") as fh:
+        evdir = os.environ.get("VERIF_EVIDENCE_DIR") or os.path.join(VERIF, "evidence")   # override: seeded-mutation runs only
+        os.makedirs(evdir, exist_ok=True)
+        with open(os.path.join(evdir, self.prop + ".json"), "w") as fh:
             json.dump(ev, fh, indent=1, sort_keys=True)
         for sig, what in self.known_hits:
             print(f"KNOWN-FINDING: property={self.prop} {sig}: {what}")
